@@ -36,11 +36,17 @@ Inductive tree := T (pos : N) (hit : bool) (kids : list tree).
 
 Record link := { l_id : N; l_pos : N; l_init : bool; l_assert : option (shape * shape) }.
 
+(* One item per node the walker hands to a visitor, in ast.Inspect (pre-order) order; the converter
+   harness/internal/absconv produces these from real files (facts read from go/ast + go/types). *)
 Inductive stmt :=
-| SIfChain (links : list link) (else_block : bool)      (* if / else-if ... [else {}]; every link is an *ast.IfStmt *)
-| SSwitch (pos : N) (cases : list (N * shape))          (* case expressions in clause order *)
-| STypeSwitch (pos : N) (guarded : bool) (hits : list bool)
-| SLit (pos : N) (keys : list (N * shape))              (* map literal keys *)
+| SIfChain (links : list link) (else_block : bool)      (* the *ast.IfStmt visited NOW (head of [links]) followed by its else-if links;
+                                                           else_block: the last link ends in `else { }` *)
+| SSwitch (pos : N) (cases : list (N * shape))          (* switch: case expressions in clause order; select: the Comm statements *)
+| STypeSwitch (pos : N) (guarded : bool) (hits : list bool)  (* guarded: `switch v := x.(type)` or no object for x; hits: per clause,
+                                                           "single-type clause whose body asserts x.(T) on the same object" *)
+| SLit (pos : N) (ws : option N) (keys : list (N * shape))   (* string-keyed map literal with >= 2 elements: position of the one
+                                                           suspicious-whitespace key (checkWhitespace), and the keys checkDuplicates
+                                                           inserts (non-literal, side-effect free) *)
 | SExpr (t : tree).
 
 Record comment := { c_pos : N; c_code : bool; c_output : bool }.
@@ -48,7 +54,7 @@ Record comment := { c_pos : N; c_code : bool; c_output : bool }.
 Inductive decl :=
 | DFunc (pos : N) (is_example : bool) (recv : option string) (body : option (list stmt)) (comments : list comment)
 | DType (pos : N) (names : list string)
-| DOther (pos : N).
+| DOther (pos : N) (items : list stmt).      (* any other GenDecl; [items]: what an expression walker meets inside it *)
 
 Definition file := list decl.
 
@@ -63,7 +69,7 @@ Definition shift_stmt (k : N) (s : stmt) : stmt :=
   | SIfChain ls e => SIfChain (map (shift_link k) ls) e
   | SSwitch p cs => SSwitch (p + k) (map (shift_pk k) cs)
   | STypeSwitch p g hs => STypeSwitch (p + k) g hs
-  | SLit p ks => SLit (p + k) (map (shift_pk k) ks)
+  | SLit p ws ks => SLit (p + k) (option_map (fun w => w + k)%N ws) (map (shift_pk k) ks)
   | SExpr t => SExpr (shift_tree k t)
   end.
 Definition shift_comment (k : N) (c : comment) : comment :=
@@ -72,7 +78,7 @@ Definition shift_decl (k : N) (d : decl) : decl :=
   match d with
   | DFunc p ex r b cs => DFunc (p + k) ex r (option_map (map (shift_stmt k)) b) (map (shift_comment k) cs)
   | DType p ns => DType (p + k) ns
-  | DOther p => DOther (p + k)
+  | DOther p b => DOther (p + k) (map (shift_stmt k) b)
   end.
 
 (* statement-level visitors: the stmtWalker calls EnterFunc, then VisitStmt for every statement (pre-order) *)
@@ -88,6 +94,13 @@ Section StmtVisitor.
   Definition stmt_on_decl (s : S) (d : decl) : S * list warning :=
     match d with
     | DFunc _ _ _ (Some b) _ => visit_all (enter_func s) b      (* EnterFunc returns false for body-less functions *)
+    | _ => (s, [])
+    end.
+  (* the exprWalker also inspects every non-function declaration (package-level var/const initialisers) *)
+  Definition expr_on_decl (s : S) (d : decl) : S * list warning :=
+    match d with
+    | DFunc _ _ _ (Some b) _ => visit_all (enter_func s) b
+    | DOther _ b => visit_all s b
     | _ => (s, [])
     end.
 End StmtVisitor.
